@@ -26,12 +26,12 @@ KNOWN = os.path.join(VERIF, "KNOWN_FINDINGS.txt")
 NCPU = os.cpu_count() or 8
 
 TRUSTED_BASE = [
-    "Coq 8.16.1 kernel and vm_compute (no native_compute); coqchk in the thorough tier",
-    "no axioms declared by the development; Print Assumptions output of every property theorem is parsed on every run",
-    "translators translate/tdata.py and translate/tcode.py (Python ast, fail-closed) -- validated by the correspondence run, not verified",
-    "harness: scripted scheduler/process stubs, generators, canonicalisers, Gallina literal printer, coqc output parser",
-    "CPython 3.12, re, jsonschema, yaml, dill, filelock, OS file system/process layer: exercised, not modelled",
-    "the Gallina models are hand-written (or regenerated) models of the anchored maestrowf code; the theorems are about the models, the tie is the correspondence check run on every invocation",
+    "Coq 8.16.1 kernel and vm_compute (no native_compute, no extraction); coqchk -o in the thorough tier: the only library axiom in the loaded context is Coq.Logic.Eqdep.Eq_rect_eq.eq_rect_eq (via CoqHammer's Tactics imported by Exec/ExecLedger4.v); no theorem depends on it",
+    "no axioms declared by the development; Print Assumptions of every property theorem is parsed on every run (all 'Closed under the global context'); whole-tree audit for Admitted/admit/Axiom/Parameter/Conjecture/unset checks/Variable outside sections",
+    "translators translate/tdata_*.py and translate/tcode_exec.py (Python ast/json on the source text, fail-closed; a translator failing closed is reported as a broken obligation) -- validated by the correspondence run, not verified",
+    "harness: scripted scheduler / process stubs / fake flux module / sub-process launcher stubbing time.sleep, generators, canonicalisers, Gallina literal printer, coqc output parser",
+    "CPython 3.12, re, jsonschema, yaml, dill, filelock, rich, subprocess, OS file system/process layer: exercised, not modelled",
+    "the Gallina models are hand-written or regenerated models of the anchored maestrowf code; the theorems are about the models; the tie is T-data/T-code regeneration plus the differential correspondence check evaluated inside Coq on every invocation (DESIGN.md 10.1, 10.6)",
 ]
 
 
